@@ -145,7 +145,7 @@ func (c *StructCase) callWith(src interface{}, unscoped valid.RM, perType map[st
 	case "StructForFns":
 		fm := valid.Name2FnMap{}
 		for _, n := range c.CallFns {
-			fm[n] = customFn("call", n)
+			fm[n] = perCallFn(n)
 		}
 		if c.Tag != "" {
 			return valid.StructForFns(src, unscoped, fm, c.Tag)
@@ -171,7 +171,7 @@ func (c *StructCase) callWith(src interface{}, unscoped valid.RM, perType map[st
 		vs.SetRule(perType[n], reflect.New(libType(n)).Interface())
 	}
 	for _, n := range c.CallFns {
-		vs.SetValidFn(n, customFn("call", n))
+		vs.SetValidFn(n, perCallFn(n))
 	}
 	return vs.Valid(src)
 }
@@ -330,4 +330,13 @@ func genScalarCall(t *rapid.T, mg *msgGen) *ScalarCase {
 		c.Missing = true
 	}
 	return c
+}
+
+// perCallFn is the function registered for one call; in the C12 process it
+// also records the strings the library hands to it.
+func perCallFn(n string) valid.CommonValidFn {
+	if fnReceived != nil {
+		return recordingFn("call", n)
+	}
+	return customFn("call", n)
 }
